@@ -688,6 +688,8 @@ def native_call(interp, f, args, kwargs):
         except (ValueError, TypeError, IndexError, KeyError, ZeroDivisionError, OverflowError, AttributeError,
                 StopIteration, ArithmeticError, NotImplementedError, AssertionError) as e:
             raise PyRaise(type(e).__name__, str(e))
+    if isinstance(f, type) and issubclass(f, tuple) and hasattr(f, "_fields"):
+        return f(*args, **kwargs)       # namedtuple construction: a container of whatever values it is given
     if id(f) in OBJECT_SAFE or (getattr(f, "__self__", None) is not None and isinstance(f.__self__, (list, dict, set, collections.deque, tuple))):
         args2 = [to_obj_array(a) if isinstance(a, np.ndarray) else a for a in args]
         try:
